@@ -334,6 +334,9 @@ func (r *Run) Finish() {
 	if len(p.HarnessErrs) > 0 {
 		cov["harness_errors"] = p.HarnessErrs
 	}
+	if r.Assume == nil {
+		r.Assume = []string{}
+	}
 	ev := map[string]interface{}{
 		"property_id": r.ID,
 		"tier":        r.Tier,
